@@ -136,11 +136,14 @@ def finish(run, program_stats=None, selftest=None, replay_key=None):
     code = 0
     for k, o in seen_known.items():
         print(f"KNOWN-FINDING: property={run.prop} {known_keys[k].get('what', o.detail)} [{o.fn}: {o.rule}]")
-    REPLAY.mkdir(exist_ok=True)
+    scratch = bool(os.environ.get("VERIF_SCRATCH"))
+    if not scratch:
+        REPLAY.mkdir(exist_ok=True)
     for k, o in seen_new.items():
         h = hashlib.sha1(k.encode()).hexdigest()[:10]
         rp = REPLAY / f"{run.prop}-{h}.json"
-        rp.write_text(json.dumps({"property": run.prop, "key": k, "obligation": o.as_dict(),
+        if not scratch:
+            rp.write_text(json.dumps({"property": run.prop, "key": k, "obligation": o.as_dict(),
                                   "how": f"python3-vt check.py --replay {rp}"}, indent=1))
         print(f"   violated: {o.rule} at {o.file}:{o.line} in {o.fn} [{o.role}] -- {o.detail}")
         print(f"VIOLATION property={run.prop} replay={rp}")
@@ -193,8 +196,9 @@ def finish(run, program_stats=None, selftest=None, replay_key=None):
         ev["coverage"]["selftest"] = selftest
     if run.errors:
         ev["coverage"]["analysis_errors"] = run.errors[:50]
-    EVID.mkdir(exist_ok=True)
-    (EVID / f"{run.prop}.json").write_text(json.dumps(ev, indent=1, default=str))
+    if not scratch:
+        EVID.mkdir(exist_ok=True)
+        (EVID / f"{run.prop}.json").write_text(json.dumps(ev, indent=1, default=str))
     if code == 0:
         print(f"OK property={run.prop} ({ev['coverage']['discharged']}/{len(run.obs)} obligations hold"
               f"{', ' + str(len(seen_known)) + ' known finding(s)' if seen_known else ''}; {ev['wall_s']} s)")
